@@ -33,12 +33,12 @@ type c15Config struct {
 	N       int    `json:"stack_size"`
 	R       int    `json:"recovery_position"`
 	P       int    `json:"panic_position"`
-	Phase   string `json:"phase"`       // before-write | after-status | after-body | after-next | unresolved-dependency
+	Phase   string `json:"phase"`        // before-write | after-status | after-body | after-next | unresolved-dependency
 	Between int    `json:"between_mask"` // bit i set: the i-th handler between Recovery and the panic calls Next() itself
-	Value   string `json:"panic_value"` // string | error | runtime | struct | abort
+	Value   string `json:"panic_value"`  // string | error | runtime | struct | abort
 	Style   string `json:"registration"` // use | route | group
 	Env     string `json:"env"`
-	BuiltIn string `json:"env_while_building,omitempty"` // when set, the stack is built in this environment and Env is set afterwards
+	BuiltIn string `json:"env_while_building,omitempty"`                       // when set, the stack is built in this environment and Env is set afterwards
 	Reconf  bool   `json:"middleware_replaced_after_first_requests,omitempty"` // the application first runs with as many do-nothing middleware, serves both routes, and only then gets the real stack through Handlers()
 }
 
